@@ -56,6 +56,10 @@ POOLS = {
     "to_snake_case": [["GetIAMPolicy"], ["List2FADevices"], ["getV2"], ["HTTPServer"], ["x9AB"], ["x9A"], ["A_B"], ["_A"], ["aB"], [""], ["OAuth2Token"], ["a1B"]],
     "is_list_item": [[x] for x in LIST_POOL],
     "get_subsequent_line_indentation_level": [[x] for x in LIST_POOL],
+    "fix_whitespace": [["a  \n\n\n\nclass B:\n    x = 1  \n\n\n    def f(self):\n        pass\n\n\n"], [""], ["x"], ["\n\n"], ["a \t\nb"], ["import os\n\n\n\n\n@dec\ndef f():\n    pass"],
+                       ["class A:\n    def f(self):\n        pass\n    \n    \n    def g(self):\n        pass\n"], ["a\n\n\n    # c\n    _x = 1\n"]],
+    "make_private": [["a"], ["_a"], [""], ["__a"], ["A_b"]],
+    "coerce_response_name": [["$resp"], ["$resp.name"], ["x.$resp"], ["$resp$resp"], ["resp"], [""]],
     "address_resolve": [[pk, sel] for pk in ([], ["acme"], ["acme", "lib", "v1"]) for sel in ("Book", "a.Book", ".Book", "", ".", "Outer.Inner", "Book.")],
 }
 GENS = {
@@ -65,6 +69,9 @@ GENS = {
                                         for _ in range(r.randint(0, 5)))],
     "is_list_item": lambda r: [rand_str(r, 6)],
     "get_subsequent_line_indentation_level": lambda r: [rand_str(r, 6)],
+    "fix_whitespace": lambda r: ["".join(r.pick(["a", " ", "  ", "\n", "\n\n", "class X:", "def f():", "    ", "        ", "@d", "# c", "_y = 1", "pass", "\t", "x = 1"]) for _ in range(r.randint(0, 14)))],
+    "make_private": lambda r: [rand_str(r, 5, ws=False)],
+    "coerce_response_name": lambda r: ["".join(r.pick(["$resp", ".", "a", "$", "resp", "_"]) for _ in range(r.randint(0, 5)))],
     "address_resolve": lambda r: [[r.pick(["acme", "lib", "v1", "a", "x_y"]) for _ in range(r.randint(0, 3))], rand_str(r, 6, ws=False)],
 }
 
